@@ -242,4 +242,35 @@ Section Value.
   Definition pv_wrapped_dist2 (s : pvar) (x1 x2 : T) : list T :=
     let y1 := cvc_wrap (pv_c s) (pv_P s) x1 in let y2 := cvc_wrap (pv_c s) (pv_P s) x2 in
     [per_dist2 (pv_P s) y1 y2; per_grad (pv_P s) y1 y2].
+
+  (* ================= round 3: sums of components, general (triclinic) cells ================= *)
+
+  (* ---- a variable that is a sum / difference of scalar components (every coefficient +-1: "homogeneous").  Each component has a
+     period or none.  colvar::init: the variable is periodic iff EVERY component is periodic with the SAME period as the first
+     (the first component in alphabetical keyword order); its wrapping centre is the first component's.  colvar::dist2 /
+     dist2_lgrad / dist2_rgrad / wrap use the first component's functions only when the variable is periodic or the first
+     component is not (after the repair; before it a non-periodic sum inherited the period of a periodic first component). ---- *)
+  Definition hv_period (ps : list (option T)) : option T :=
+    match ps with
+    | Some P :: r => if forallb (fun q => match q with Some Q => neqb O Q P | None => false end) r then Some P else None
+    | _ => None
+    end.
+  Definition hv_kind (c : T) (ps : list (option T)) : comp_kind :=
+    match hv_period ps with Some P => KPeriodic P c | None => KScalar end.
+
+  (* ---- colvarproxy_system::update_pbc_lattice and position_distance for a general cell with vectors a, b, c ---- *)
+  Definition v3cross (a b : vec3) : vec3 :=
+    let '(ax, ay, az) := a in let '(bx, by_, bz) := b in (ay * bz - az * by_, az * bx - ax * bz, ax * by_ - ay * bx).
+  Definition recip (a b c : vec3) : vec3 :=     (* reciprocal vector of a:  (b x c) / ((b x c) . a) *)
+    let v := v3cross b c in let d := v3dot v a in let '(vx, vy, vz) := v in (vx / d, vy / d, vz / d).
+  Definition tri_position_distance (a b c p1 p2 : vec3) : vec3 :=
+    let d := v3sub p2 p1 in
+    let sx := nofZ O (nfloor O (v3dot (recip a b c) d + nhalf O)) in
+    let sy := nofZ O (nfloor O (v3dot (recip b c a) d + nhalf O)) in
+    let sz := nofZ O (nfloor O (v3dot (recip c a b) d + nhalf O)) in
+    let '(dx, dy, dz) := d in let '(ax, ay, az) := a in let '(bx, by_, bz) := b in let '(cx, cy, cz) := c in
+    (dx - (sx * ax + sy * bx + sz * cx), dy - (sx * ay + sy * by_ + sz * cy), dz - (sx * az + sy * bz + sz * cz)).
+  Definition dvt_dist2 (a b c x1 x2 : vec3) : T := v3norm2 (tri_position_distance a b c x1 x2).
+  Definition dvt_lgrad (a b c x1 x2 : vec3) : vec3 := v3scale two (tri_position_distance a b c x2 x1).
+  Definition dvt_rgrad (a b c x1 x2 : vec3) : vec3 := dvt_lgrad a b c x2 x1.
 End Value.
